@@ -304,6 +304,11 @@ func createShimChannel(ctx context.Context, host, shimPath string, rewriteHost b
 		targetURL := *(r.URL)
 		targetURL.Scheme = "ws"
 		targetURL.Host = host
+		// Only the path and query of the client-supplied URL may be used: an
+		// opaque URL ("x:y") would otherwise serialise without any host at all
+		// and be dialled at ":80".
+		targetURL.Opaque = ""
+		targetURL.User = nil
 		if originalHost := r.Host; rewriteHost && originalHost != "" {
 			r.Header.Set("Host", originalHost)
 		}
